@@ -202,7 +202,10 @@ class ExprMixin:
         op = type(n.op)
         if isinstance(a, TupV) and isinstance(b, TupV) and op is ast.Add:
             return TupV(a.items + b.items)
-        if isinstance(a, (TupV, Closure)) or isinstance(b, (TupV, Closure)):
+        if op is ast.Add and (isinstance(a, EmptyV) or isinstance(b, EmptyV)):
+            # x + [] == x
+            return b if isinstance(a, EmptyV) else a
+        if isinstance(a, (TupV, Closure, EmptyV)) or isinstance(b, (TupV, Closure, EmptyV)):
             return self.opaque("binop")
         if a.sort == INT and b.sort == INT:
             if op in (ast.Add, ast.Sub, ast.Mult):
@@ -487,7 +490,7 @@ class ExprMixin:
         if h is not None:
             return h
         if not items:
-            return TupV([])
+            return EmptyV("list")
         return TupV(items)
 
     def ev_dict(self, n, st, old):
